@@ -491,21 +491,26 @@ def _canon_fc(p):
 
 def _canon_moving(r, fh):
     """the result of update_predict -> one [column label or None, labels, values] per moving cutoff
-    (DataFrame: one column per cutoff, NaN where a cutoff has no forecast for that label)"""
+    (DataFrame: one column per cutoff, NaN where a cutoff has no forecast for that label; a forecast
+    that is NaN altogether has values None)"""
+    import numpy as np
     import pandas as pd
     out = []
     if isinstance(r, pd.DataFrame):
         for j in range(r.shape[1]):
             col = r.iloc[:, j].dropna()
+            if len(col) == 0:
+                out.append([int(r.columns[j]), [int(r.columns[j]) + h for h in fh], None])
+                continue
             pairs = sorted((int(t), v) for t, v in zip(col.index, _canon(col.to_numpy())))
             out.append([int(r.columns[j]), [t for t, _ in pairs], [v for _, v in pairs]])
     elif len(fh) == 1:
-        vals = _canon(r.to_numpy())
-        for t, v in zip(r.index, vals):
-            out.append([None, [int(t)], [v]])
+        for t, v in zip(r.index, np.asarray(r.to_numpy(), dtype=float)):
+            out.append([None, [int(t)], None if np.isnan(v) else [_canon(v)]])
     else:
+        a = np.asarray(r.to_numpy(), dtype=float)
         out.append([int(r.name) if r.name is not None else None, [int(t) for t in r.index],
-                    _canon(r.to_numpy())])
+                    None if len(a) and np.all(np.isnan(a)) else _canon(a)])
     return out
 
 
